@@ -133,6 +133,10 @@ def _desc(body, op):
     consts = sorted(str(a[1])[:40] for a in o.atoms if a[0] == 'const')
     calls = sorted({strip_generics(cname(c)).split('::')[-1] for c in o.calls})
     flags = sorted(x.split(':')[0] + ':' + x.split(':')[1] if x.startswith('arith:') else x for x in o.flags if x.startswith('arith:') or x in ('len', 'index', 'nz_get'))
+    if o.fields:
+        # a value read from named state is described by that state alone: flow-insensitive provenance would otherwise
+        # fold the operation itself back in (`self.n = self.n + 1` once the helper is spliced into its caller)
+        return 'f=%s c= k=%s a=' % (','.join(sorted(o.fields)), ','.join(calls))
     return 'f=%s c=%s k=%s a=%s' % (','.join(sorted(o.fields)), ','.join(consts), ','.join(calls), ','.join(flags))
 
 
